@@ -111,7 +111,7 @@ def check(case, ctx):
                 off = ~np.eye(n, dtype=bool)
                 if E.shape != (n, n) or not np.allclose(E[off], 1.0 / M[off], rtol=1e-9, atol=0):
                     fails.append(Failure("diffusion_efficiency:not-elementwise-inverse-of-mfpt", "", case))
-                elif abs(float(ge) - float(np.mean(1.0 / M[off]))) > 1e-9 * max(1.0, abs(float(ge))):
+                elif not np.isfinite(float(ge)) or abs(float(ge) - float(np.mean(1.0 / M[off]))) > 1e-9 * max(1.0, abs(float(ge))):
                     fails.append(Failure("diffusion_efficiency:global-value-not-mean", "%r vs %r" % (ge, np.mean(1.0 / M[off])), case))
         return fails
 
@@ -165,6 +165,8 @@ def check(case, ctx):
             lam = float(ev.max())
             if v.shape != (n,):
                 fails.append(Failure("eigenvector_centrality_und:shape", "%s" % (v.shape,), case))
+            elif not np.all(np.isfinite(v)):
+                fails.append(Failure("eigenvector_centrality_und:not-finite", "%s" % v, case))
             else:
                 if np.any(v < -1e-12):
                     fails.append(Failure("eigenvector_centrality_und:negative-entry", "%s" % v, case))
